@@ -1,6 +1,7 @@
 package verifsim
 
 import (
+	"bytes"
 	"fmt"
 	"strings"
 )
@@ -26,6 +27,7 @@ type IntegGen struct {
 	Names          string // "simple" | "ascii"
 	ExportPct      int
 	InteractivePct int  // per task: declared interactive
+	HugePct        int  // per world: one command prints more than 1 MiB
 	CtxPct         int  // per world: a context (whose up commands may fail) used by some of the tasks
 	HookOutput     bool // before/after hooks print something too (it is not part of the captured output)
 	StageGen       SchedGenParams
@@ -217,6 +219,9 @@ func GenTaskWorld(ch *Choices, p IntegGen) *IntegWorld {
 		t.NCmd = ch.Range(1, p.MaxCmd, "ncmd")
 		if p.MaxVar > 1 && ch.Bool(1, 3, "has-var") {
 			t.NVar = ch.Range(2, p.MaxVar, "nvar")
+			if ch.Bool(1, 4, "empty-variation") {
+				t.EmptyVar = 1 + ch.Choose(t.NVar, "empty-which")
+			}
 		}
 		if p.MaxHook > 0 {
 			if ch.Bool(1, 3, "has-before") {
@@ -285,7 +290,7 @@ func GenTaskWorld(ch *Choices, p IntegGen) *IntegWorld {
 		if t.NVar > 0 {
 			vars = nil
 			for k := 0; k < t.NVar; k++ {
-				vars = append(vars, variationName(k))
+				vars = append(vars, t.VarName(k))
 			}
 		}
 		for _, v := range vars {
@@ -295,6 +300,33 @@ func GenTaskWorld(ch *Choices, p IntegGen) *IntegWorld {
 		}
 		for i := 0; i < t.NAfter; i++ {
 			plan(execID(nm, "after", i, ""), p.HookFailPct, p.HookOutput)
+		}
+	}
+	if p.HugePct > 0 && len(w.Tasks) > 0 && ch.Bool(p.HugePct, 100, "huge-output") {
+		// one command prints more than a megabyte (a chatty build): nothing may be lost or cut,
+		// and the command must not fail because of it
+		t := w.Tasks[ch.Choose(len(w.Tasks), "huge-which")]
+		v := ""
+		if t.NVar > 0 {
+			v = t.VarName(ch.Choose(t.NVar, "huge-var"))
+		}
+		id := execID(t.Name, "cmd", ch.Choose(t.NCmd, "huge-cmd"), v)
+		pl := w.Plans[id]
+		if pl == nil {
+			pl = &ExecPlan{}
+			w.Plans[id] = pl
+		}
+		if len(t.CmdText) == 0 {
+			line := []byte(strings.Repeat("0123456789abcdef", 64)[:1023] + "\n")
+			n := 1100 + ch.Choose(400, "huge-kib")
+			pl.Chunks = nil
+			for k := 0; k < n; k += 64 {
+				m := 64
+				if n-k < m {
+					m = n - k
+				}
+				pl.Chunks = append(pl.Chunks, Chunk{Stream: 1, Data: bytes.Repeat(line, m)})
+			}
 		}
 	}
 	if p.CtxPct > 0 && ch.Bool(p.CtxPct, 100, "has-context") {
@@ -337,6 +369,7 @@ func runIntegJob(c *Ctl, job *Job, idx int, res *RunResult) {
 		prof.Checks["C06"] = true
 		prof.Checks["C07"] = true
 		gen.HookOutput = true
+		gen.HugePct = 2
 		w = GenTaskWorld(c.Ch, gen)
 		w.Format = []string{"raw", "prefixed", "cockpit"}[c.Ch.Weighted([]int{3, 2, 1}, "format")]
 	case "c07":
@@ -380,6 +413,7 @@ func runIntegJob(c *Ctl, job *Job, idx int, res *RunResult) {
 		gen.Names = "ascii"
 		gen.HookOutput = true
 		gen.InteractivePct = 12
+		gen.HugePct = 2
 		gen.StageGen.CondProb = 8
 		w = GenTaskWorld(c.Ch, gen)
 		// the captured output must not depend on the output format chosen for the terminal
